@@ -113,8 +113,17 @@ var allRIDs = []string{"svc.r.1", "svc.r.2", "svc.s.1", "svc.s.2", "svc.t.a.1", 
 
 func (m *machine) viol(prop, format string, a ...interface{}) {
 	m.mu.Lock()
-	m.out.Viol[prop] = append(m.out.Viol[prop], fmt.Sprintf(format, a...))
+	m.violLocked(prop, fmt.Sprintf(format, a...))
 	m.mu.Unlock()
+}
+
+// violLocked records a violation (lock held). A C01/C02 violation in a cycle after
+// a restart is also a C03 violation: a re-served service must give the same guarantees.
+func (m *machine) violLocked(prop, msg string) {
+	m.out.Viol[prop] = append(m.out.Viol[prop], msg)
+	if (prop == "C01" || prop == "C02") && m.cycle > 1 {
+		m.out.Viol["C03"] = append(m.out.Viol["C03"], fmt.Sprintf("after restart (cycle %d) the service no longer gives its guarantees: %s", m.cycle, msg))
+	}
 }
 
 func (m *machine) refGroup(rid string) (group string, parallel, found bool) {
@@ -141,7 +150,7 @@ func (m *machine) body(sb *Sub, r res.Resource, qe bool) {
 	if !sb.Parallel {
 		m.occ[key]++
 		if m.occ[key] > 1 {
-			m.out.Viol["C01"] = append(m.out.Viol["C01"], fmt.Sprintf("two callbacks of group %q execute at the same instant (entering: submission %d %s %s)", sb.Group, sb.ID, sb.Kind, sb.RID))
+			m.violLocked("C01", fmt.Sprintf("two callbacks of group %q execute at the same instant (entering: submission %d %s %s)", sb.Group, sb.ID, sb.Kind, sb.RID))
 		}
 	}
 	m.running[sb.ID] = true
@@ -578,7 +587,7 @@ func (m *machine) quiesce() {
 			continue
 		}
 		if len(sb.Starts) != want || len(sb.Ends) != want {
-			m.out.Viol["C02"] = append(m.out.Viol["C02"], fmt.Sprintf("at quiescence submission %d (%s %s, group %q) has run %d times (finished %d), expected exactly once", sb.ID, sb.Kind, sb.RID, sb.Group, len(sb.Starts), len(sb.Ends)))
+			m.violLocked("C02", fmt.Sprintf("at quiescence submission %d (%s %s, group %q) has run %d times (finished %d), expected exactly once", sb.ID, sb.Kind, sb.RID, sb.Group, len(sb.Starts), len(sb.Ends)))
 		}
 	}
 }
@@ -639,17 +648,17 @@ func run(c Case) *Outcome {
 	}
 	for _, sb := range m.subs {
 		if len(sb.Starts) > 1 {
-			m.out.Viol["C02"] = append(m.out.Viol["C02"], fmt.Sprintf("submission %d (%s %s) ran %d times", sb.ID, sb.Kind, sb.RID, len(sb.Starts)))
+			m.violLocked("C02", fmt.Sprintf("submission %d (%s %s) ran %d times", sb.ID, sb.Kind, sb.RID, len(sb.Starts)))
 		}
 		if len(sb.Starts) != len(sb.Ends) {
 			m.out.Viol["C03"] = append(m.out.Viol["C03"], fmt.Sprintf("callback of submission %d started but never finished", sb.ID))
 		}
 		if sb.Kind == "with" && sb.Returned {
 			if sb.WantErr != (sb.Err != "") {
-				m.out.Viol["C02"] = append(m.out.Viol["C02"], fmt.Sprintf("With(%q): error=%q, but a matching handler exists=%v", sb.RID, sb.Err, !sb.WantErr))
+				m.violLocked("C02", fmt.Sprintf("With(%q): error=%q, but a matching handler exists=%v", sb.RID, sb.Err, !sb.WantErr))
 			}
 			if sb.Err != "" && len(sb.Starts) > 0 {
-				m.out.Viol["C02"] = append(m.out.Viol["C02"], fmt.Sprintf("With(%q) returned an error and still ran its callback", sb.RID))
+				m.violLocked("C02", fmt.Sprintf("With(%q) returned an error and still ran its callback", sb.RID))
 			}
 		}
 	}
@@ -705,7 +714,7 @@ func (m *machine) checkOrder() {
 				if before {
 					m.out.OrderedPairs++
 					if x.Starts[0] > y.Starts[0] {
-						m.out.Viol["C02"] = append(m.out.Viol["C02"], fmt.Sprintf("group %q: submission %d (%s %s) was submitted before submission %d (%s %s) but its callback started later", x.Group, x.ID, x.Kind, x.RID, y.ID, y.Kind, y.RID))
+						m.violLocked("C02", fmt.Sprintf("group %q: submission %d (%s %s) was submitted before submission %d (%s %s) but its callback started later", x.Group, x.ID, x.Kind, x.RID, y.ID, y.Kind, y.RID))
 					}
 				}
 			}
